@@ -42,10 +42,61 @@ type verifOp struct {
 	Pre     []verifOp   `json:"pre"`
 }
 
+// verifSpec describes an executor created (and briefly used) BEFORE the one under observation.
+type verifSpec struct {
+	Chunk      bool `json:"chunk"`
+	Max        int  `json:"max"`         // WithBulkTasks / WithChunkBytes; 0: option not given
+	IntervalMs int  `json:"interval_ms"` // WithBulkInterval / WithFlushInterval; 0: option not given
+	Adds       int  `json:"adds"`        // tasks pushed through it (then Flush)
+}
+
 type verifCase struct {
-	Chunk bool      `json:"chunk"`
-	Max   int       `json:"max"`
-	Ops   []verifOp `json:"ops"`
+	Chunk      bool        `json:"chunk"`
+	Max        int         `json:"max"`
+	Defaults   bool        `json:"defaults"`    // the observed executor is created without any option
+	IntervalMs int         `json:"interval_ms"` // explicit interval option of the observed executor (0: 1s)
+	Before     []verifSpec `json:"before"`
+	Ops        []verifOp   `json:"ops"`
+}
+
+// verifDormant never ticks.
+type verifDormant struct{ c chan time.Time }
+
+func (t verifDormant) Chan() <-chan time.Time { return t.c }
+func (t verifDormant) Stop()                  {}
+
+// verifBefore creates the earlier executors, one after another, with their explicit options.
+func verifBefore(specs []verifSpec) {
+	for _, sp := range specs {
+		var pe *PeriodicalExecutor
+		var add func(i int)
+		if sp.Chunk {
+			var opts []ChunkOption
+			if sp.Max > 0 {
+				opts = append(opts, WithChunkBytes(sp.Max))
+			}
+			if sp.IntervalMs > 0 {
+				opts = append(opts, WithFlushInterval(time.Duration(sp.IntervalMs)*time.Millisecond))
+			}
+			ce := NewChunkExecutor(func([]any) {}, opts...)
+			pe, add = ce.executor, func(i int) { ce.Add(i, 1) }
+		} else {
+			var opts []BulkOption
+			if sp.Max > 0 {
+				opts = append(opts, WithBulkTasks(sp.Max))
+			}
+			if sp.IntervalMs > 0 {
+				opts = append(opts, WithBulkInterval(time.Duration(sp.IntervalMs)*time.Millisecond))
+			}
+			be := NewBulkExecutor(func([]any) {}, opts...)
+			pe, add = be.executor, func(i int) { be.Add(i) }
+		}
+		pe.newTicker = func(time.Duration) timex.Ticker { return verifDormant{c: make(chan time.Time)} }
+		for i := 0; i < sp.Adds; i++ {
+			add(i)
+		}
+		pe.Flush()
+	}
 }
 
 type verifAdd struct {
@@ -96,6 +147,7 @@ type verifProbe struct {
 	inAddTask bool
 	hold      bool // execute callbacks park at entry
 	holdCh    chan struct{}
+	tickD     int64         // the interval the flusher asked its ticker for
 	holdOnce  chan struct{} // non-nil: the next execute callback (only) parks at entry
 	parked    int
 
@@ -267,21 +319,37 @@ func verifNewRig(c verifCase) *verifRig {
 			p.batches = append(p.batches, verifBatch{IDs: ids, Start: start, End: p.next()})
 		})
 	}
-	if c.Chunk {
-		ce := NewChunkExecutor(execute, WithChunkBytes(c.Max), WithFlushInterval(verifInterval))
+	interval := verifInterval
+	if c.IntervalMs > 0 {
+		interval = time.Duration(c.IntervalMs) * time.Millisecond
+	}
+	verifBefore(c.Before)
+	if c.Defaults && c.Chunk {
+		ce := NewChunkExecutor(execute)
+		r.pe = ce.executor
+		r.add = func(id, size int) { ce.Add(id, size) }
+		r.flush, r.wait = ce.Flush, ce.Wait
+	} else if c.Defaults {
+		be := NewBulkExecutor(execute)
+		r.pe = be.executor
+		r.add = func(id, size int) { be.Add(id) }
+		r.flush, r.wait = be.Flush, be.Wait
+	} else if c.Chunk {
+		ce := NewChunkExecutor(execute, WithChunkBytes(c.Max), WithFlushInterval(interval))
 		r.pe = ce.executor
 		r.add = func(id, size int) { ce.Add(id, size) }
 		r.flush, r.wait = ce.Flush, ce.Wait
 	} else {
-		be := NewBulkExecutor(execute, WithBulkTasks(c.Max), WithBulkInterval(verifInterval))
+		be := NewBulkExecutor(execute, WithBulkTasks(c.Max), WithBulkInterval(interval))
 		r.pe = be.executor
 		r.add = func(id, size int) { be.Add(id) }
 		r.flush, r.wait = be.Flush, be.Wait
 	}
 	r.pe.container = &verifContainer{p: p, inner: r.pe.container}
-	r.pe.newTicker = func(time.Duration) timex.Ticker {
+	r.pe.newTicker = func(d time.Duration) timex.Ticker {
 		t := &verifTicker{p: p, c: make(chan time.Time), stopCh: make(chan struct{})}
 		p.bump(func() {
+			p.tickD = int64(d)
 			p.starts++
 			p.cur = t
 		})
@@ -410,6 +478,10 @@ func (r *verifRig) simple(op verifOp, settle bool) {
 	switch op.Op {
 	case "add":
 		r.doAdd(op.ID, op.Size)
+	case "addn":
+		for i := 0; i < op.N; i++ {
+			r.doAdd(op.ID+i, op.Size)
+		}
 	case "flush", "wait":
 		r.doCall(op.Op)
 	case "tick":
@@ -432,7 +504,7 @@ func (r *verifRig) run(i int, op verifOp) {
 	p := r.p
 	what := fmt.Sprintf("op#%d %s", i, op.Op)
 	switch op.Op {
-	case "add", "flush", "wait":
+	case "add", "addn", "flush", "wait":
 		if r.bounded(what, func() { r.simple(op, false) }) {
 			r.settle(what)
 		}
@@ -474,6 +546,7 @@ func (r *verifRig) run(i int, op verifOp) {
 		select {
 		case <-done:
 			r.settle(what)
+			p.bump(func() { p.tickObs[len(p.tickObs)-1].Done = p.next() }) // the tick's effects end here
 		case <-time.After(verifPatience):
 			r.setHung(what + ": Add did not return")
 		}
@@ -649,6 +722,7 @@ func TestVerifDriver(t *testing.T) {
 			"adds": append([]verifAdd{}, p.adds...), "calls": append([]verifCall{}, p.calls...),
 			"ticks": append([]verifTick{}, p.tickObs...), "batches": append([]verifBatch{}, p.batches...),
 			"perop": perop, "hung": r.hung, "pending": nz(len(r.pe.commander)),
+			"interval": int64(r.pe.interval), "tick_d": p.tickD,
 		}
 	})
 }
